@@ -1228,6 +1228,13 @@ fn node_step(b: &Built, node: &Arc<Node>, values: &[u64], now: u64, answer: bool
                     monitor.push(format!("signed, but the persisted fee control {:?} differs from the one in memory {:?}", disk.buckets, mem.buckets));
                 }
                 signed = json!({"witness_stacks": wit.len(), "persisted_equals_memory": same});
+                // C11 (reported under that property, not under C08): a signer restored from the
+                // store right after the signature has the same channels, tracker and node state
+                let shadow = b.world.restart(&node.get_id());
+                let d = fingerprint_diff(&fingerprint(node), &fingerprint(&shadow));
+                if !d.is_empty() {
+                    monitor.push(format!("C11: after check_onchain_tx + unchecked_sign_onchain_tx (Ok) a restart would differ: {}", d.join("; ")));
+                }
             }
             Ok(Err(_)) => stats.sign_refused += 1,
             Err(_) => {
@@ -1398,7 +1405,9 @@ fn node_domain(args: &Args) {
                 stats.restarts += 1;
             }
         }
-        let mut monitor: Vec<String> = steps.iter().flat_map(|s| s.monitor.clone()).collect();
+        let all_mon: Vec<String> = steps.iter().flat_map(|s| s.monitor.clone()).collect();
+        let c11: Vec<String> = all_mon.iter().filter(|m| m.starts_with("C11:")).cloned().collect();
+        let mut monitor: Vec<String> = all_mon.into_iter().filter(|m| !m.starts_with("C11:")).collect();
         if b.pol.vel_kind != 2 && !ref_warned(&b.pol.rules, TAGS[9]) {
             if let Some((t0, len, sum)) = window_violation(&log, b.pol.vel_limit, ivl, nb) {
                 monitor.push(format!("accepted non-beneficial values in the window [{}, {}+{}) sum to {} msat, above the fee velocity limit {}", t0, t0, len, sum, b.pol.vel_limit));
@@ -1413,7 +1422,7 @@ fn node_domain(args: &Args) {
             json!({"id": case, "kind": "node", "policy": pol_json(&b.pol), "transaction": tx_json(&b, &vec![0; b.ins.len()]),
                    "steps": steps.iter().map(|s| s.json.clone()).collect::<Vec<_>>(),
                    "n_funded": n_funded, "accepted": steps.iter().any(|s| s.check_code == 0),
-                   "monitor_violation": monitor, "coq": coq}),
+                   "monitor_violation": monitor, "c11_violations": c11, "coq": coq}),
         );
     }
     emit(
